@@ -70,6 +70,25 @@ func newLineUniverse(r *hlib.Rand) *lineUniverse {
 		}
 		u.TagLists = append(u.TagLists, ht)
 	}
+	// the same series written with a repeated tag and with its tags in another order
+	for _, tl := range append([]string(nil), u.TagLists...) {
+		parts := strings.Split(tl, ",")
+		if tl == "" || !r.Chance(2, 3) {
+			continue
+		}
+		switch r.Intn(3) {
+		case 0:
+			u.TagLists = append(u.TagLists, tl+","+parts[0]) // x,y,x
+		case 1:
+			u.TagLists = append(u.TagLists, parts[0]+","+tl) // x,x,y
+		default:
+			rev := make([]string, len(parts))
+			for i, p := range parts {
+				rev[len(parts)-1-i] = p
+			}
+			u.TagLists = append(u.TagLists, strings.Join(rev, ",")+","+parts[len(parts)-1])
+		}
+	}
 	// tag lists with a host: tag (the source under ignore-host, an ordinary tag otherwise), next to
 	// the lists without one; several senders
 	nh := r.Range(1, 2)
@@ -254,6 +273,12 @@ func genSys(r *hlib.Rand, tier string) input {
 		in.CopyMicros = r.Range(40, 300)
 		in.MaxFlushes = r.Range(4, 10)
 	}
+	// the tag stage: default (no static tags, no filters) in two runs of three
+	if r.Chance(1, 3) {
+		in.StaticTags = [][]string{{"env:prod"}, {"env:prod", "region:x"}, {"a", "env:prod"}, {"dc:1", "dc:1"}}[r.Intn(4)]
+	} else {
+		in.StaticTags = []string{}
+	}
 	// the parser configuration an operator can choose
 	in.IgnoreHost = r.Bool()
 	in.Namespace = hlib.Pick(r, []string{"", "", "ns", "a.b"})
@@ -351,15 +376,40 @@ func (a *aggWrap) Process(f statsd.ProcessFunc) {
 // handlerWrap (one per parser) logs which batch its parser dispatches and counts completed
 // DispatchMetricMap calls (parser quiescence).
 type handlerWrap struct {
-	*statsd.BackendHandler
+	next       gostatsd.PipelineHandler // the real TagHandler in front of the real BackendHandler, as statsd.go wires them
 	dispatched *int64
 	log        []int // batches, appended by the parser goroutine only
 }
 
 func (h *handlerWrap) DispatchMetricMap(ctx context.Context, mm *gostatsd.MetricMap) {
 	h.log = append(h.log, batchOf(mm))
-	h.BackendHandler.DispatchMetricMap(ctx, mm)
+	h.next.DispatchMetricMap(ctx, mm)
 	atomic.AddInt64(h.dispatched, 1)
+}
+func (h *handlerWrap) EstimatedTags() int                                   { return h.next.EstimatedTags() }
+func (h *handlerWrap) DispatchEvent(ctx context.Context, e *gostatsd.Event) { h.next.DispatchEvent(ctx, e) }
+func (h *handlerWrap) WaitForEvents()                                       { h.next.WaitForEvents() }
+
+// tagStage does to an accepted metric what TagHandler does without filters (monitors only; the
+// verdict applies the same documented rule in Corr/C01.v): first occurrences of its tags, then the
+// static tags that are not among them.
+func tagStage(m *gostatsd.Metric, static []string) {
+	seen := map[string]bool{}
+	var out gostatsd.Tags
+	for _, t := range m.Tags {
+		if !seen[t] {
+			seen[t] = true
+			out = append(out, t)
+		}
+	}
+	for _, t := range static {
+		if !seen[t] {
+			seen[t] = true
+			out = append(out, t)
+		}
+	}
+	m.Tags = out
+	m.TagsKey = ""
 }
 
 type captured struct {
@@ -500,7 +550,8 @@ func sentAccount(in input) (sent map[string]*tot, dispatches int, lines []string
 				}
 				n++
 				stampSource(m, d.IP, in.IgnoreHost)
-				id := seriesID(m.Type, m.Name, m.FormatTagsKey())
+				tagStage(m, in.StaticTags)
+				id := seriesID(m.Type, m.Name, gostatsd.FormatTagsKey(m.Source, m.Tags))
 				t := sent[id]
 				if t == nil {
 					t = &tot{members: map[string]bool{}}
@@ -630,6 +681,7 @@ func runSys(in input, rep uint64) hlib.Case {
 	})
 	bh := statsd.NewBackendHandler(backends, 4, in.Shards, in.Queue, af)
 	var dispatched int64
+	tagHandler := statsd.NewTagHandler(bh, append(gostatsd.Tags(nil), in.StaticTags...), nil)
 	hws := make([]*handlerWrap, in.Parsers)
 	flusher := statsd.NewMetricFlusher(time.Second, 0, false, bh, backends)
 	statser := stats.NewNullStatser()
@@ -639,7 +691,7 @@ func runSys(in input, rep uint64) hlib.Case {
 	bg.Add(1)
 	go func() { defer bg.Done(); bh.Run(ctx) }()
 	for p := 0; p < in.Parsers; p++ {
-		hws[p] = &handlerWrap{BackendHandler: bh, dispatched: &dispatched}
+		hws[p] = &handlerWrap{next: tagHandler, dispatched: &dispatched}
 		dp := statsd.NewDatagramParser(inCh, in.Namespace, in.IgnoreHost, in.EstTags, hws[p], 0, false, logger)
 		bg.Add(1)
 		go func() { defer bg.Done(); dp.Run(ctx) }()
@@ -866,7 +918,7 @@ func runSys(in input, rep uint64) hlib.Case {
 			trace = "(Some " + traceTerm(in, witness, plog, wlog, ticks) + ")"
 		}
 	}
-	c.Coq = hlib.App("SysCase", hlib.Nat(in.Shards), hlib.Bytes(in.Namespace), hlib.Bool(in.IgnoreHost), hlib.List(bl), oracleTable(lines), hlib.List(fl), trace)
+	c.Coq = hlib.App("SysCase", hlib.Nat(in.Shards), hlib.Bytes(in.Namespace), hlib.Bool(in.IgnoreHost), hlib.StrList(in.StaticTags), hlib.List(bl), oracleTable(lines), hlib.List(fl), trace)
 	expClass := "mixed"
 	if in.Exp == [4]int64{} {
 		expClass = "persist"
@@ -896,6 +948,9 @@ func runSys(in input, rep uint64) hlib.Case {
 	}
 	if in.IgnoreHost {
 		c.Class += "/ignorehost"
+	}
+	if len(in.StaticTags) > 0 {
+		c.Class += "/statictags"
 	}
 	c.Obs = map[string]interface{}{"lines": len(lines), "accepted": accepted, "series": len(sent), "flushes": atomic.LoadInt64(&flushNo), "histogram_timer_lines": histLines,
 		"flushes_with_data": len(flushesWithData), "maps_captured": len(caps)}
